@@ -587,10 +587,14 @@ Definition report_diags (v : str) : outcome (list diag) unit :=
     else do dl <- email_in_dotless_domain email;
          Ok (if dl then [DInvalidReport v] else []).
 
+(* if report_msgid_bugs_tos == ['']: report_msgid_bugs_tos = []   (after the sorted(set()) of duplicates) *)
+Definition report_values (fs : list (str * str)) : list str :=
+  match dedup (values_of (field_name FReport) fs) with [[]] => [] | l => l end.
+
 Definition check_project (fs : list (str * str)) : outcome (list diag) unit :=
   let pivs := values_of (field_name FProject) fs in
   let rs := values_of (field_name FReport) fs in
-  let rs' := match dedup rs with [[]] => [] | l => l end in
+  let rs' := report_values fs in
   do rd <- ocollect report_diags rs';
   Ok ((if many pivs then [DDuplicateDedicated FProject] else match pivs with [] => [DNoField FProject] | _ => [] end)
       ++ flat_map project_diags (dedup pivs)
